@@ -26,6 +26,12 @@ PROPS = {
  "C08": ("exploration", "The action closures are the probes: every invocation is logged (production, rule, span, arguments, parameter) and the log is checked offline against the production table and the final tree: once per reduction, post-order, argument kinds and order, span = extent of the derived lexemes (zero-length if none), parameter passed through, action-built tree == generic parse-tree mode; with recovery off and across CPCT+ repair replay. Sampled grammars (nullable-heavy) x inputs over texts with gaps.",
          "Trusted: the log checker. Inserted zero-length lexemes at the edge of a reduction: both readings of the span are accepted.",
          "runtime monitoring: event-log checker over probe actions (offline trace specification)", "DESIGN.md §4 C08"),
+ "C09": ("exploration", "Differential against a reference lexer (per-rule independently compiled regexes from the generator's AST; longest non-empty match, earliest rule on ties; plain start-state stack) on generated specifications x inputs built from the rules' own regexes plus noise; generic invariants on the lexeme stream; set_rule_ids(_spanned) reports vs independently computed set differences, and ids after syncing.",
+         "Trusted: the regex crate; the reference lexer (lx.rs).",
+         "runtime monitoring: differential reference-model monitor (reference lexer) over generated specs and inputs", "DESIGN.md §4 C09"),
+ "C11": ("exploration", "Print-then-parse round trip: each abstract specification is rendered several ways (header/builder flags, CRLF, comments, gratuitous lex escapes, spellings) and the built definition's rules, start states, spans, behaviour (vs the reference lexer compiled from the abstract regexes, incl. size/nest limits) and error spans of broken renderings are compared with the abstract specification.",
+         "Trusted: renderer + reference lexer; StartState's Debug output for kind/id.",
+         "runtime monitoring: round-trip law monitor (abstract spec -> text -> definition) with behavioural probes", "DESIGN.md §4 C11"),
  "C16": ("exploration", "Every state x token x rule of every generated table: state_actions/state_shifts/core_reduces/reduce_only_state/goto vs action() and the graph's edges, reachability of all states, and every closed state vs a reference LR(1) closure of its core. Exhaustive over cells per generated grammar; grammars are sampled.",
          "Trusted: harness FIRST/nullable/closure.",
          "runtime monitoring: invariant checks on the live state graph and table at the quiescent point after construction", "DESIGN.md §4 C16"),
